@@ -187,7 +187,8 @@ fn model_costs(shapes: &[Shape], nets: &[NetShape], agg: CostAggregation) {
     let h = m.cost_estimate(&prev, &next);
     kani::cover!(t.is_ok() && a.is_ok() && h.is_ok(), "all three costs computed");
     kani::cover!(matches!(t, Ok(c) if c.as_f64() == MIN_COST), "traversal cost floored");
-    kani::cover!(matches!(t, Ok(c) if c.as_f64() > 1.0), "traversal cost not floored");
+    let can_exceed_floor = shapes.iter().any(|s| !matches!(s, Shape::Zero)) || nets.iter().any(|n| matches!(n, NetShape::EdgeLookup | NetShape::Combined));
+    kani::cover!(!can_exceed_floor || matches!(t, Ok(c) if c.as_f64() > 1.0), "traversal cost not floored");
     kani::cover!(matches!(h, Ok(c) if c.as_f64() == 0.0), "estimate clipped");
     assert!(t.is_ok() && a.is_ok() && h.is_ok(), "well-formed model and state vectors never fail");
     let (t, a, h) = (t.unwrap().as_f64(), a.unwrap().as_f64(), h.unwrap().as_f64());
@@ -518,26 +519,36 @@ pub mod q {
 
 pub mod t {
     use super::*;
-    #[kani::proof]
-    #[kani::unwind(3)]
-    #[kani::stub(routee_compass_core::model::cost::vehicle::vehicle_cost_rate::VehicleCostRate::map_value, map_value_flat)]
-    #[kani::stub(routee_compass_core::model::cost::network::network_cost_rate::NetworkCostRate::traversal_cost, net_traversal_flat)]
-    #[kani::stub(routee_compass_core::model::cost::network::network_cost_rate::NetworkCostRate::access_cost, net_access_flat)]
-    pub fn model_floor_rule_raw() { model_floor_rule(false) }
-    shapes_h!(network_rule, net_edge_edge [2] => (NetShape::EdgeEdgeLookup));
-    shapes_h!(map_value_rule, map_comb_fo [3] => (Shape::CombFactorOffset));
-    shapes_h!(vehicle_n1, vehicle_n1_comb_fo [3] => (Shape::CombFactorOffset, 3.7));
-    shapes_h!(network_rule, net_combined [3] => (NetShape::Combined));
-    #[kani::proof]
-    #[kani::unwind(3)]
-    #[kani::stub(routee_compass_core::model::cost::vehicle::vehicle_cost_rate::VehicleCostRate::map_value, map_value_flat)]
-    #[kani::stub(routee_compass_core::model::cost::network::network_cost_rate::NetworkCostRate::traversal_cost, net_traversal_flat)]
-    #[kani::stub(routee_compass_core::model::cost::network::network_cost_rate::NetworkCostRate::access_cost, net_access_flat)]
-    pub fn model_floor_rule_offset() { model_floor_rule(true) }
     model_h!(
         model_n1_zero_sum [3] => ([Shape::Zero], [NetShape::EdgeEdgeLookup], CostAggregation::Sum),
         model_n2_raw_factor_sum [4] => ([Shape::Raw, Shape::Factor], [NetShape::Zero, NetShape::EdgeLookup], CostAggregation::Sum),
         model_n2_factor_offset_mul [4] => ([Shape::Factor, Shape::Offset], [NetShape::EdgeEdgeLookup, NetShape::Zero], CostAggregation::Mul),
         model_n2_zero_offset_sum [4] => ([Shape::Zero, Shape::Offset], [NetShape::EdgeLookup, NetShape::Zero], CostAggregation::Sum)
     );
+}
+
+/// documented attempts, in no tier. Combined rates (recursive code) at kernel level: the
+/// recursion-unwinding assertion cannot be discharged (heap discriminant) at unwind 3 and the
+/// instances exceed 5 GB at larger bounds; the exact floor / composition rule at model level and
+/// the combined network rate: no verdict in 1800 s.
+pub mod attempts {
+    use super::*;
+    shapes_h!(map_value_rule, map_comb_fo [3] => (Shape::CombFactorOffset));
+    shapes_h!(vehicle_n1, vehicle_n1_comb_fo [3] => (Shape::CombFactorOffset, 3.7));
+    shapes_h!(network_rule, net_combined [3] => (NetShape::Combined));
+    // the real recursive access_cost / traversal_cost on a turn table: 8-11 GB, no verdict (the turn
+    // table semantics are decided at model level through the non-recursive stub only)
+    shapes_h!(network_rule, net_edge_edge [2] => (NetShape::EdgeEdgeLookup));
+    #[kani::proof]
+    #[kani::unwind(3)]
+    #[kani::stub(routee_compass_core::model::cost::vehicle::vehicle_cost_rate::VehicleCostRate::map_value, map_value_flat)]
+    #[kani::stub(routee_compass_core::model::cost::network::network_cost_rate::NetworkCostRate::traversal_cost, net_traversal_flat)]
+    #[kani::stub(routee_compass_core::model::cost::network::network_cost_rate::NetworkCostRate::access_cost, net_access_flat)]
+    pub fn model_floor_rule_raw() { model_floor_rule(false) }
+    #[kani::proof]
+    #[kani::unwind(3)]
+    #[kani::stub(routee_compass_core::model::cost::vehicle::vehicle_cost_rate::VehicleCostRate::map_value, map_value_flat)]
+    #[kani::stub(routee_compass_core::model::cost::network::network_cost_rate::NetworkCostRate::traversal_cost, net_traversal_flat)]
+    #[kani::stub(routee_compass_core::model::cost::network::network_cost_rate::NetworkCostRate::access_cost, net_access_flat)]
+    pub fn model_floor_rule_offset() { model_floor_rule(true) }
 }
